@@ -158,11 +158,16 @@ impl<P: Pid> World for Bisim<P> {
     }
 }
 
-fn bisim_cfgs(ver: Ver, thorough: bool) -> (EpCfg, EpCfg) {
+fn bisim_cfgs(ver: Ver, thorough: bool, opts: u8) -> (EpCfg, EpCfg) {
     let mk = |v: Option<Ver>| {
-        let mut c = EpCfg::new(&format!("c17-bisim server {} vs undetermined", ver_name(Some(ver))), RoleK::Server, v);
-        c.auto_pub = true;
+        let mut c = EpCfg::new(&format!("c17-bisim server {} vs undetermined{}", ver_name(Some(ver)), match opts { 1 => " +auto-map +offline", 2 => " +auto-replace manual", _ => "" }), RoleK::Server, v);
+        c.auto_pub = opts != 2;
         c.auto_ping = true;
+        // every option is set right after construction - when the undetermined object has no version yet
+        c.auto_map = opts == 1;
+        c.offline = opts == 1;
+        c.auto_replace = opts == 2;
+        c.pingresp_to = if opts == 0 { 0 } else { 5 };
         c.window = 2;
         c.alph = Alph {
             pub_q: vec![0, 1, 2],
@@ -195,6 +200,16 @@ fn bisim_cfgs(ver: Ver, thorough: bool) -> (EpCfg, EpCfg) {
             c.connects.push(ConnProf { rm: Some(1), tam: Some(1), mps: Some(30), ..ConnProf::basic(false) });
         }
         c.connacks = vec![AckProf::basic(false), AckProf::basic(true), AckProf { ok: false, ..AckProf::basic(false) }];
+        if opts != 0 {
+            // alias options need a Topic Alias Maximum from the client, two topics and registrations
+            c.alph.topics = 2;
+            c.alph.als = if opts == 2 { vec![Al::No, Al::Reg(1)] } else { vec![Al::No] };
+            c.alph.peer_pub_q = vec![1];
+            c.alph.peer_acks = vec![AckKind::Puback];
+            c.alph.peer_auth = false;
+            c.alph.peer_sub = false;
+            c.connects = vec![ConnProf { tam: Some(2), ..ConnProf::basic(true) }, ConnProf { tam: Some(2), ..ConnProf::basic(false) }];
+        }
         c.force_connect_ver = Some(ver);
         c.groups = vec!["c17"];
         c
@@ -208,8 +223,8 @@ pub fn run(rep: &mut Report) {
         let lim = if thorough { Limits::new(200, 400_000, 60.0) } else { Limits::new(200, 60_000, 4.0) };
         run_cfg::<u16>(rep, cfg, lim, false);
     }
-    for ver in [Ver::V4, Ver::V5] {
-        let (cu, cf) = bisim_cfgs(ver, thorough);
+    for (ver, opts) in [(Ver::V4, 0u8), (Ver::V5, 0), (Ver::V5, 1), (Ver::V5, 2), (Ver::V4, 1)] {
+        let (cu, cf) = bisim_cfgs(ver, thorough, opts);
         let name = cf.name.clone();
         let w = Bisim::<u16> { u: Ep::new(Arc::new(cu)), f: Ep::new(Arc::new(cf)) };
         let lim = if thorough { Limits::new(300, 1_500_000, 200.0) } else { Limits::new(300, 120_000, 8.0) };
@@ -225,7 +240,8 @@ pub fn run(rep: &mut Report) {
 pub fn replay(config: &str, labels: &[String]) -> Result<Vec<String>, String> {
     if config.starts_with("c17-bisim") {
         let ver = if config.contains("v5.0") { Ver::V5 } else { Ver::V4 };
-        let (cu, cf) = bisim_cfgs(ver, true);
+        let opts = if config.contains("+auto-map") { 1 } else if config.contains("+auto-replace") { 2 } else { 0 };
+        let (cu, cf) = bisim_cfgs(ver, true, opts);
         let w = Bisim::<u16> { u: Ep::new(Arc::new(cu)), f: Ep::new(Arc::new(cf)) };
         return crate::explore::replay(w, labels);
     }
